@@ -244,6 +244,16 @@ class Env:
         self.window_kind = rng.choice(["date", "datetime", "ts"]) if self.param_tz is None else rng.choice(["datetime", "ts"])
         self.min_span = None
         self.allow_date_only_zone = False
+        # swarm style: every world emphasises one feature family (or none), so that rare features meet each other
+        self.emph = rng.choice([None, None, None, "coarse", "periodic", "chp", "orderbook", "scaled", "structured", "contract",
+                                "storage", "transport", "windows", "shared", "linked"])
+        if self.emph == "coarse":
+            self.coarse_p = 0.7
+        if self.emph == "periodic":
+            self.periodic_p = 0.7
+        if self.emph == "chp":
+            self.ramp_p = 0.6
+        self.name_family = rng.choice(["gas", "7", "n", "x_"]) if rng.random() < 0.15 else None
 
     def new_id(self, prefix):
         n = self.counter.get(prefix, 0)
@@ -490,6 +500,8 @@ def value_form(rng, vals):
 
 def maybe_shared(env, sev, p=0.25):
     """Register an interval dict in the shared pool with probability p and return a reference."""
+    if getattr(env, "emph", None) == "shared":
+        p = max(p, 0.7)
     if env.rng.random() < p:
         did = env.new_id("d")
         env.world["dicts"][did] = sev
@@ -663,6 +675,8 @@ def gen_window(env, p_none=0.6):
 def common_kw(env, name, wacc=True, window=True, p_window_none=0.6):
     rng = env.rng
     kw = {"name": name}
+    if getattr(env, "emph", None) == "windows" and p_window_none < 1.0:
+        p_window_none = 0.15
     if window:
         s, e = gen_window(env, p_window_none)
         if s is not None:
@@ -717,6 +731,12 @@ def asset_name(env):
     """Asset names incl. numeric-looking and prefix-related ones (unique per world)."""
     n = env.counter.get("nm", 0)
     env.counter["nm"] = n + 1
+    fam = getattr(env, "name_family", None)
+    if fam is not None:
+        # a family of names that are each other's prefix followed by digits ("gas", "gas1", "gas10", ...): anything that
+        # glues a name and a number together to make a key will confuse them
+        seq = ["", "1", "10", "2", "11", "21", "12", "100", "3", "13", "101", "20", "4", "14", "110", "5", "15", "111", "22", "6", "16", "7"]
+        return fam + (seq[n] if n < len(seq) else "_%d" % n)
     pool = ["a%d", "A_%d", "%d", "a%d_x", "as %d"]
     return env.rng.choice(pool) % n
 
@@ -1205,6 +1225,13 @@ def gen_portfolio(env, grid_freq="h", n_assets=None, mip_ok=True, market_p=0.9, 
     elif mip_ok:
         base_kinds += ["plant"]
     kinds = kinds or base_kinds
+    em = getattr(env, "emph", None)
+    boost = {"chp": ["chp", "plant"], "orderbook": ["orderbook"], "scaled": ["scaled"], "structured": ["structured"],
+             "contract": ["contract", "multi"], "storage": ["storage", "storage2"], "transport": ["transport"],
+             "linked": ["linked"], "periodic": ["simple", "storage", "contract"], "coarse": ["simple", "transport", "contract"]}.get(em)
+    if boost:
+        extra_k = [b_ for b_ in boost if b_ in kinds]
+        kinds = list(kinds) + extra_k * 4
     for _ in range(n_assets):
         k = rng.choice(kinds)
         n = rng.choice(nodes)
